@@ -73,15 +73,37 @@ NoEolToks(toks) ==
   LET depth(i) == Cardinality({ j \in 1..(i-1) : toks[j].k = "stag" }) - Cardinality({ j \in 1..(i-1) : toks[j].k = "etag" })
   IN [i \in 1..Len(toks) |-> IF toks[i].k = "ws" /\ depth(i) <= 0 THEN toks[i] ELSE NoEolTok(toks[i])]
 
+\* "required-attribute-materialized": an attribute declared #REQUIRED that is not written appears
+\* all the same, with the empty value and specified = false (pinned by the repository's own test
+\* test_attribute_specified_required).  As-is tree: the ideal tree plus exactly those attributes.
+HasRequired(toks) ==
+  \E i \in 1..Len(toks) : toks[i].k = "attlist" /\ \E j \in 1..Len(toks[i].defs) : toks[i].defs[j].dk = "REQUIRED"
+RequiredExtra(attlists, el, present) ==
+  LET d == DefsFor(attlists, el)
+      names == { d[i].n : i \in 1..Len(d) }
+  IN { [n |-> an, v |-> <<>>, spec |-> FALSE] :
+         an \in { x \in names : /\ BindingDef(attlists, el, x).dk = "REQUIRED"
+                               /\ ~IsNsAttrName(x)
+                               /\ ~\E a \in present : a.n = x } }
+RequiredTree(toks) ==
+  LET st == Fold(InitState, toks)
+      ns == st.tree.nodes
+  IN [st.tree EXCEPT !.nodes =
+        [i \in 1..Len(ns) |-> IF ns[i].k = "elem"
+                              THEN [ns[i] EXCEPT !.a = @ \cup RequiredExtra(st.attlists, ns[i].n, ns[i].a)]
+                              ELSE ns[i]]]
+
 AsIsTreeC01(name, e) ==
   CASE name = "no-line-end-normalization" -> Recognize(NoEolToks(e.toks)).tree
+    [] name = "required-attribute-materialized" -> RequiredTree(e.toks)
     [] OTHER -> Recognize(e.toks).tree
 
 AsIsAppliesC01(name, e) ==
   CASE name = "no-line-end-normalization" -> HasContentCr(e.toks)
+    [] name = "required-attribute-materialized" -> HasRequired(e.toks)
     [] OTHER -> FALSE
 
-C01Names == {"no-line-end-normalization"}
+C01Names == {"no-line-end-normalization", "required-attribute-materialized"}
 
 C01Verdict(e, rec) ==
   IF ~(rec.wf /\ rec.inprofile) THEN [verdict |-> "ok"]
